@@ -220,6 +220,7 @@ fn get_parent_and_index(target: &Handle) -> Option<(Handle, usize)> {
 fn append_to_existing_text(prev: &Handle, text: &str) -> bool {
     match prev.data {
         NodeData::Text { ref contents } => {
+            verif_tick!(ProbeTextMerge);
             contents.borrow_mut().push_slice(text);
             true
         }
@@ -355,6 +356,7 @@ impl TreeSink for RcDom {
     }
 
     fn create_element(&self, name: QualName, attrs: Vec<Attribute>, flags: ElementFlags) -> Handle {
+        verif_tick!(SinkOp);
         Node::new(NodeData::Element {
             name,
             attrs: RefCell::new(attrs),
@@ -379,6 +381,7 @@ impl TreeSink for RcDom {
     }
 
     fn append(&self, parent: &Handle, child: NodeOrText<Handle>) {
+        verif_tick!(SinkOp);
         // Append to an existing Text node if we have one.
         if let NodeOrText::AppendText(text) = &child {
             if let Some(h) = parent.children.borrow().last() {
@@ -400,6 +403,7 @@ impl TreeSink for RcDom {
     }
 
     fn append_before_sibling(&self, sibling: &Handle, child: NodeOrText<Handle>) {
+        verif_tick!(SinkOp);
         let (parent, i) = get_parent_and_index(sibling)
             .expect("append_before_sibling called on node without parent");
 
